@@ -550,6 +550,11 @@ theorem Expr.eval_wf (e : Expr) {d : Diagram} (h : e.eval = .ok d) : d.WF := by
     split at h
     · cases h
     · rename_i x hx; exact Diagram.slice_wf s t (iha hx) h
+  | sliceRev a s t iha =>
+    simp only [Expr.eval] at h
+    split at h
+    · cases h
+    · rename_i x hx; exact Diagram.sliceRev_wf s t (iha hx) h
   | getItem a i iha =>
     simp only [Expr.eval] at h
     split at h
